@@ -104,9 +104,21 @@ fn determinism_case(cfg: &Config, tmp: &Path, idx: u64, r: &mut Rng, st: &mut St
                     _ => format!("p{h}(X) :- in(X), X != {}.", r.range(0, 5)),
                 });
             }
+            // a positive cycle (both programs are non-tight: two different warnings under
+            // --bypass-tightness) and user-guide formulas with roles that are ignored with a
+            // warning: several distinct warnings whose order must be reproducible as well
+            rules.push("p0(X) :- p1(X), in(X).".to_string());
+            rules.push("p1(X) :- p0(X).".to_string());
             let left = rules.join("\n");
             let right = rewrite_program(r, &left);
             let mut ug = vec!["input: in/1.".to_string()];
+            if r.chance(2, 3) {
+                ug.push("spec: forall X (in(X) -> in(X)).".to_string());
+                ug.push("lemma: forall X (in(X) or not in(X)).".to_string());
+                if r.chance(1, 2) {
+                    ug.push("definition: forall X (in(X) <-> in(X)).".to_string());
+                }
+            }
             for i in 0..np {
                 ug.push(format!("output: p{i}/1."));
             }
@@ -183,7 +195,12 @@ fn determinism_case(cfg: &Config, tmp: &Path, idx: u64, r: &mut Rng, st: &mut St
             runs.push(("verify-external".into(), args, true));
         }
     }
+    let mut watchdog_fired = false;
     for (label, args, has_out) in runs {
+        if watchdog_fired {
+            // a command of this case did not finish: inconclusive, do not wait for the others
+            break;
+        }
         let argv: Vec<&str> = args.iter().map(|s| s.as_str()).collect();
         let mut observed: Vec<(Option<i32>, u64, u64, Vec<(String, u64)>)> = Vec::new();
         for k in 0..3 {
@@ -194,7 +211,11 @@ fn determinism_case(cfg: &Config, tmp: &Path, idx: u64, r: &mut Rng, st: &mut St
             }
             // alternate the binaries' profiles between cases, never within a comparison
             let bin = if idx % 2 == 0 { cfg.anthem_release() } else { cfg.anthem_dev() };
-            let Ok(o) = run_cli(&bin, &argv, None, &[("AVM_RUN", &k.to_string())], Some(&d)) else { continue };
+            let Ok(o) = run_cli(&bin, &argv, None, &[("AVM_RUN", &k.to_string())], Some(&d)) else {
+                st.inc("cli_runs_ended_by_the_wall_clock_watchdog");
+                watchdog_fired = true;
+                break;
+            };
             observed.push((o.code, fnv(&String::from_utf8_lossy(&o.stdout_bytes)), o.stdout_bytes.len() as u64, if has_out { hash_dir(&out) } else { vec![] }));
             st.inc("cli_runs");
         }
